@@ -2,7 +2,8 @@ import Driver.Proto
 import Ibx.Model.Wild
 import Ibx.Model.Addr
 import Ibx.Model.Policy
-/- Stateless handlers: wild, glob, addr.*, policy. -/
+import Ibx.Model.ParseIP
+/- Stateless handlers: wild, glob, addr.*, policy, parseip. -/
 namespace Driver
 open Ibx Ibx.Model
 
@@ -53,7 +54,20 @@ def parseCfg (kv : KV) : Option Policy.Cfg := do
   pure { defaultAccept := da, acceptDomains := acc, rejectDomains := rej, defaultStore := ds,
          storeDomains := sto, discardDomains := dis, rejectOrigin := ro }
 
+/-- answer of the `net.ParseIP` model for one string: `0`, or `1` and the 16 bytes -/
+def showParseIP (s : Bytes) : String :=
+  match ParseIP.parseIPv s with
+  | some b => s!"1{Bytes.toHex b}"
+  | none => "0"
+
+/-- the `ip=` field of a request: `model` = `net.ParseIP` is the model `ParseIP.parseIP` (tied to the real function
+    by the parseip leg of C04 / C05); a table = the caller ships Go's answers -/
+def ipOfToken (s : String) : Option (Bytes → Bool) :=
+  if s == "model" then some ParseIP.parseIP else (parseIpTable s).map ipFun
+
+/-- `ip=model`: `net.ParseIP` is the model `ParseIP.parseIP`; `ip=<table>`: the caller ships Go's answers -/
 def withIp (kv : KV) (a : Bytes) (k : (Bytes → Bool) → String) : String :=
+  if kv.get? "ip" == some "model" then k ParseIP.parseIP else
   match parseIpTable ((kv.get? "ip").getD "-") with
   | none => "bad-op"
   | some tbl =>
@@ -96,6 +110,14 @@ def pureHandler (toks : List String) : Option String :=
   | ["addr.origin", a] =>
     match Bytes.ofHex a with
     | some a => some (withIp kv a fun ip => showOpt2 (Addr.parseOrigin ip a))
+    | none => some "bad-op"
+  | ["parseip", h] =>
+    match Bytes.ofHex h with
+    | some s => some (showParseIP s)
+    | none => some "bad-op"
+  | ["parseips", hs] =>
+    match hexList hs with
+    | some ss => some (",".intercalate (ss.map showParseIP))
     | none => some "bad-op"
   | ["policy", which, d] =>
     match parseCfg kv, Bytes.ofHex d with
